@@ -4,6 +4,8 @@ use crate::known::Known;
 use crate::runner::{run_part, Part, Tier};
 
 pub mod c01;
+pub mod c02;
+pub mod c03;
 pub mod c04;
 pub mod c05;
 pub mod c06;
@@ -36,7 +38,7 @@ pub fn parts(prop: &str) -> Vec<Box<dyn Part>> {
     }
 }
 
-pub const ALL: [&str; 13] = ["C01", "C04", "C05", "C06", "C10", "C12", "C13", "C14", "C15", "C16", "C17", "C18", "C19"];
+pub const ALL: [&str; 15] = ["C01", "C02", "C03", "C04", "C05", "C06", "C10", "C12", "C13", "C14", "C15", "C16", "C17", "C18", "C19"];
 
 pub fn assumptions(prop: &str) -> Vec<String> {
     let mut v = vec![
@@ -54,6 +56,8 @@ pub fn assumptions(prop: &str) -> Vec<String> {
 pub fn e2_parts(prop: &str) -> Vec<Box<dyn crate::e2::E2Part>> {
     match prop {
         "C01" => c01::e2_parts(),
+        "C02" => c02::e2_parts(),
+        "C03" => c03::e2_parts(),
         _ => vec![],
     }
 }
